@@ -198,6 +198,27 @@ theorem die_unexpected_term (o : Opts) {path : Path} {put : Container → Cif} {
   simp only [bind_eq, pure_eq, P.bind, P.pure, hn, ht, if_true, report_die CIF_UNEXPECTED_TERM _ _ w (by decide)]
   simp [hw]
 
+/-- `loop_` that is not followed by a data name -/
+theorem die_null_loop (o : Opts) {path : Path} {put : Container → Cif} {code : Str} (hv : View o path put code) (isBlock : Bool)
+    (fs : List Container) (ls : List Loop) :
+    DieSeg o path put code isBlock [(.loopKw, [])] fs ls fs ls CIF_NULL_LOOP 1 2
+      (fun rest => ∃ ty tx ts, rest = (ty, tx) :: ts ∧ ty ≠ .name) := by
+  intro rest s fuel w hw hf hfol hF
+  obtain ⟨ty, tx, ts, rfl, hnn⟩ := hfol
+  obtain ⟨f, rfl⟩ : ∃ f, fuel = (f + 1) + 1 := ⟨fuel - 2, by omega⟩
+  simp only [List.singleton_append] at hF
+  obtain ⟨t, s1, hty, _, hn, htk, hr⟩ := hF.inv
+  obtain ⟨s2, h1, h2, ha⟩ := header_structure_at o hv fs ls [] [] ((ty, tx) :: ts) (consume s1) (f + 1) dieAll w hw
+    (by intro n hn; cases hn) (by intro n hn; cases hn) (by simp) (by simp) ⟨ty, tx, ts, rfl, hnn⟩ hr
+  simp only [List.nil_append, List.map_nil] at h1
+  have a2 : At o s 1 s2 := (((At.refl o s).step hn htk).trans ha).cast (by simp)
+  refine ⟨⟨CIF_NULL_LOOP, s2.scan.line, s2.scan.col - (s2.tok.getD default).text.length⟩, ?_, rfl, ⟨s2, a2, rfl⟩⟩
+  conv => lhs; rw [elemsLoop]
+  simp only [bind_eq, pure_eq, P.bind, P.pure, hn, hty]
+  unfold parseLoop
+  simp only [bind_eq, pure_eq, P.bind, P.pure, h1, List.isEmpty_nil, if_true, report_die CIF_NULL_LOOP _ _ w (by decide)]
+  simp [hw]
+
 /-! ### the defect at any depth of nesting -/
 
 /-- one level of the nesting context in front of the defect: the elements in front of the frame that is open, and its code -/
